@@ -5,6 +5,8 @@ import (
 	"encoding/json"
 	"errors"
 	"fmt"
+	"hash/crc32"
+	"strconv"
 	"strings"
 
 	sgbucket "github.com/couchbase/sg-bucket"
@@ -33,6 +35,7 @@ type GenOp struct {
 	Json bool            `json:"json"` // WithMeta datatype
 	H    string          `json:"h"`    // handle: "" / h1 / h2
 	P    string          `json:"p"`    // process (concurrent drivers)
+	F    *FeedSpec       `json:"f"`    // StartFeed
 }
 
 // Args is the abstracted, fully resolved argument record written to the trace (uniform shape).
@@ -115,11 +118,13 @@ type KeyInfo struct {
 
 // Ctx carries what Exec needs: the collection to call, the driver's knowledge, tables.
 type Ctx struct {
-	tr     *Trace
-	crc    *crcTable
-	exp    *expTable
-	known  func(coll, key string) *KeyInfo
-	maxCas func() uint64
+	tr      *Trace
+	crc     *crcTable
+	exp     *expTable
+	known   func(coll, key string) *KeyInfo
+	maxCas  func() uint64
+	snap    map[string]uint64 // CAS of every key at the end of the sequential setup
+	onShown func(cas uint64)  // called inside Update-style callbacks with the CAS of the version shown
 }
 
 func (x *Ctx) resolveCas(op *GenOp) uint64 {
@@ -132,6 +137,14 @@ func (x *Ctx) resolveCas(op *GenOp) uint64 {
 			return ki.cur
 		}
 		return 424242 // absent key: "current" does not exist; behaves as never-issued
+	case "snap":
+		// the CAS the key had when the concurrent phase started (a client that read before the race)
+		if x.snap != nil {
+			if v, ok := x.snap[op.Coll+"/"+op.Key]; ok && v != 0 {
+				return v
+			}
+		}
+		return 434343
 	case "stale":
 		if len(ki.older) > 0 {
 			return ki.older[len(ki.older)-1]
@@ -286,7 +299,14 @@ func (x *Ctx) Exec(c *rosmar.Collection, bucket *rosmar.Bucket, op *GenOp) (a Ar
 		err = c.Delete(op.Key)
 	case "Update":
 		casOut, err = c.Update(op.Key, exp, func(cur []byte) ([]byte, *uint32, bool, error) {
+			if x.onShown != nil {
+				// Update does not show the CAS; identify the version by the body's checksum instead
+				x.onShown(uint64(crc32.Checksum(cur, crc32.MakeTable(crc32.Castagnoli))) + 1)
+			}
 			switch op.Cb {
+			case "inc":
+				n, _ := strconv.ParseUint(string(cur), 10, 32)
+				return []byte(strconv.FormatUint(n+1, 10)), nil, false, nil
 			case "set":
 				return body, nil, false, nil
 			case "del":
@@ -327,6 +347,13 @@ func (x *Ctx) Exec(c *rosmar.Collection, bucket *rosmar.Bucket, op *GenOp) (a Ar
 		mo := &sgbucket.MutateInOptions{PreserveExpiry: op.Pres}
 		casOut, err = c.WriteUpdateWithXattrs(ctx, op.Key, XNames, 0, nil, mo,
 			func(doc []byte, xattrs map[string][]byte, cas uint64) (sgbucket.UpdatedDoc, error) {
+				if x.onShown != nil {
+					x.onShown(cas)
+				}
+				if op.Cb == "inc" {
+					n, _ := strconv.ParseUint(string(doc), 10, 32)
+					return sgbucket.UpdatedDoc{Doc: []byte(strconv.FormatUint(n+1, 10)), Xattrs: sets, Spec: macroSpecs(op.Sets)}, nil
+				}
 				if op.Cb == "cancel" {
 					return sgbucket.UpdatedDoc{}, errors.New("cancelled by callback")
 				}
